@@ -90,7 +90,7 @@ type c03Kit struct {
 	epochs []uint64 // epoch starts seen (ascending)
 	sess   uint64
 
-	checkC03  bool // C03 oracles (on in every property: they are cheap; class names say c03)
+	checkC03  bool // evaluate the C03 oracles (only in C03 runs; the ledger is kept in every run)
 	wantDig   bool // C05: digest around every relay-payment transaction
 	preHooks  []func(tx *c03TxInfo, q sdk.Context)
 	postHooks []func(tx *c03TxInfo)
@@ -749,7 +749,14 @@ func (s *Sim) opC03Relay() {
 		np.Cons = c
 		r.Fault("c03_same_session_id_other_key")
 		k.remember(np)
-		k.send("relay_other_key", p.Prov, []*c03Proof{np})
+		tx := k.send("relay_other_key", p.Prov, []*c03Proof{np})
+		if tx.OK {
+			r.Probe("c03_same_session_id_other_project_paid") // another project: another session
+		} else if len(tx.Rels) == 1 && tx.Rels[0].Key != "" {
+			if _, paid := k.ledger[tx.Rels[0].Key]; paid {
+				r.Probe("c03_same_session_id_same_project_refused")
+			}
+		}
 	case mode == 13: // a good relay in a transaction that aborts; afterwards it is claimed alone
 		a := k.fresh("fresh_in_aborted_tx")
 		k.remember(a)
@@ -845,6 +852,7 @@ func c03Weights() map[string]int {
 	w["c03relay"] = 40
 	w["c03epochs"] = 4
 	w["c03params"] = 2
+	w["c18badge"] = 6 // mixed with badge relays
 	return w
 }
 
@@ -856,7 +864,8 @@ func runC03(r *simrt.Run) {
 	s := NewSim(r, cfg)
 	k := c03NewKit(s)
 	defer delete(c03Kits, s)
-	_ = k
+	c18Attach(k, false) // badge relays take part in the workload; C18's oracles are not evaluated here
+	defer delete(c18States, k)
 	s.RunHistory()
 }
 
@@ -869,7 +878,7 @@ func init() {
 	AddOp("c03epochs", (*Sim).opC03Epochs)
 	AddOp("c03params", (*Sim).opC03Params)
 	simrt.Register("C03", &simrt.PropSpec{Fn: runC03, NonTrivial: c03NonTrivial,
-		Rule: "tape-generated multi-actor histories (stake/freeze/unstake, subscriptions, projects, keys, policies, delegations) in which every MsgRelayPayment is built by the harness: honest claims (single, batches, kept and claimed in later blocks/epochs, claims for past epochs) and dishonest ones (same proof twice in one tx, again in the same block, in later blocks and epochs, re-signed with higher/lower CuSum, same session id signed by another key of the same/another project, good relays inside a tx that aborts and claimed again afterwards, kept+fresh mixes), with multi-epoch block progress and governance changes of EpochsToSave/EpochBlocks while proofs are pending. Ledger = accepted (epochStart, provider, project, chain, session) as resolved by the chain's own project/epoch queries on the pre-state. Non-trivial = >=2 paid relay txs, >=2 fired duplicate/abort/param faults, >=10 accepted ops; distinct = (op,outcome,fault) sequence hash",
+		Rule: "tape-generated multi-actor histories (stake/freeze/unstake, subscriptions, projects, keys, policies, delegations) in which every MsgRelayPayment is built by the harness: honest claims (single, batches, kept and claimed in later blocks/epochs, claims for past epochs) and dishonest ones (same proof twice in one tx, again in the same block, in later blocks and epochs, re-signed with higher/lower CuSum, same session id signed by another key of the same/another project, good relays inside a tx that aborts and claimed again afterwards, kept+fresh mixes), mixed with badge relays (several per tx, overuse attempts, forged badges), with multi-epoch block progress and governance changes of EpochsToSave/EpochBlocks while proofs are pending. Ledger = accepted (epochStart, provider, project, chain, session) as resolved by the chain's own project/epoch queries on the pre-state. Non-trivial = >=2 paid relay txs, >=2 fired duplicate/abort/param faults, >=10 accepted ops; distinct = (op,outcome,fault) sequence hash",
 		Real:    chainReal, Stubbed: chainStub, Assume: append([]string{"a MsgRelayPayment is rejected as a whole when any of its relays is rejected (current handler behaviour: rejectedRelaysNum != 0), so every relay of an accepted transaction is a paid relay"}, chainAssume...)})
 }
 
